@@ -106,12 +106,18 @@ std::unique_ptr<quadratic_t> make_quadratic(Rng& rng, int64_t n, quad_info_t& in
         }
         Q.matrix().col(c) /= norm;
     }
-    const auto kappa = std::pow(10.0, rng.uniform(0.0, 3.0));
-    const auto s     = std::pow(10.0, rng.uniform(-3.0, 3.0));
+    // condition number in [1, 1e3] and curvature scale in [1e-3, 1e3] (the corners included); the spectrum is geometric, or random /
+    // clustered inside [1, kappa] with both ends attained
+    const auto kappa = rng.coin(1, 8) ? rng.pick(std::vector<double>{1.0, 1e3}) : std::pow(10.0, rng.uniform(0.0, 3.0));
+    const auto s     = rng.coin(1, 8) ? rng.pick(std::vector<double>{1e-3, 1e3}) : std::pow(10.0, rng.uniform(-3.0, 3.0));
     vector_t   spectrum(n);
+    const auto shape = rng.range(0, 2);
     for (tensor_size_t i = 0; i < n; ++i)
     {
-        spectrum(i) = (n == 1) ? 1.0 : std::pow(kappa, static_cast<double>(i) / static_cast<double>(n - 1));
+        const auto geometric = (n == 1) ? 1.0 : std::pow(kappa, static_cast<double>(i) / static_cast<double>(n - 1));
+        spectrum(i) = (shape == 0 || i == 0 || i + 1 == n) ? geometric
+                    : (shape == 1) ? std::pow(kappa, rng.uniform(0.0, 1.0))
+                                   : (rng.coin() ? 1.0 : kappa); // two clusters
     }
     matrix_t A(n, n);
     A.matrix()      = s * Q.matrix() * spectrum.vector().asDiagonal() * Q.matrix().transpose();
